@@ -18,9 +18,15 @@ ASSUMPTIONS = [
     "HistoryObserver (toggle), t re-subscribe the most recently unsubscribed recorder; an observer that is not subscribed receives nothing "
     "(neither dispatches nor resets) and keeps its record",
 ]
-STUBS = ["max", "min", "int (dispatcher module only)"]
+STUBS = ["max", "min", "int (dispatcher module only)", "np facade"]
 BUDGET = {"quick": 480, "thorough": 3000}
 ALPHABET = "DISURHGCht"
+
+
+def extra_models(sp):
+    from .. import models
+
+    return models.numpy_facade_models()
 
 
 def bounds(tier):
@@ -119,6 +125,42 @@ def warm_caches(disp):
     disp.available_machines()
 
 
+def detached_checks(eng, inst, desc):
+    """Observers built with subscribe=False are not subscribed (and receive nothing) until subscribed by hand, then exactly once."""
+    from job_shop_lib.dispatching import Dispatcher, HistoryObserver, UnscheduledOperationsObserver
+    from job_shop_lib.dispatching.feature_observers import (IsReadyObserver, DurationObserver, IsScheduledObserver,
+                                                             RemainingOperationsObserver, IsCompletedObserver, PositionInJobObserver)
+    from job_shop_lib.reinforcement_learning import MakespanReward, IdleTimeReward
+
+    d = Dispatcher(inst)
+    made = []
+    for cls in (HistoryObserver, UnscheduledOperationsObserver, IsReadyObserver, DurationObserver, IsScheduledObserver,
+                RemainingOperationsObserver, IsCompletedObserver, PositionInJobObserver, MakespanReward, IdleTimeReward):
+        before = list(d.subscribers)
+        try:
+            o = cls(d, subscribe=False)
+        except E.Unsupported:
+            raise
+        except Exception as ex:
+            eng.fail(f"C10/detached/{cls.__name__}/constructor-raises-{type(ex).__name__}", f"{ex}"[:200])
+            continue
+        if any(s is o for s in d.subscribers):
+            eng.fail(f"C10/detached/{cls.__name__}/subscribed-although-subscribe-false")
+        made.append(o)
+        # helper observers created as a side effect may subscribe themselves; the detached one must not
+    first = D.op_by_id(inst, 0)
+    d.dispatch(first, desc.machines[0][0])
+    for o in made:
+        if isinstance(o, HistoryObserver) and o.history:
+            eng.fail("C10/detached/HistoryObserver/notified-while-not-subscribed")
+        if hasattr(o, "rewards") and o.rewards:
+            eng.fail(f"C10/detached/{type(o).__name__}/notified-while-not-subscribed")
+    for o in made:
+        d.subscribe(o)
+        if sum(1 for s in d.subscribers if s is o) != 1:
+            eng.fail(f"C10/detached/{type(o).__name__}/not-subscribed-exactly-once-after-subscribe")
+
+
 def harness(eng, sp):
     from job_shop_lib.dispatching import Dispatcher, HistoryObserver
     from job_shop_lib.exceptions import ValidationError
@@ -193,6 +235,7 @@ def harness(eng, sp):
             eng.fail("C10/singleton-observer-subscribed-twice-or-lost")
 
     if sp["mode"] == "plain":
+        detached_checks(eng, inst, desc)
         new_recorder()
         new_recorder()
         for _ in range(desc.n_ops):
